@@ -288,6 +288,10 @@ def run(rep: Report, tier: str) -> None:
     # ---- R05.12: a union used as an operand selects its operands' own columns ----
     rep.rule("R05.12", "union as the operand of a clause (statement output != union structure): the UNION branches project exactly the components of the operands")
     _union_as_operand(P, rep, "R05.12")
+    # ---- R05.13: the two arms of symdiff's UNION ALL list the same columns in the same sequence ----
+    rep.rule("R05.13", "symdiff over operands that declare the same components in another order: both arms of the UNION ALL (matched by position) select the same names in the "
+                       "same sequence (evaluated handler)")
+    _symdiff_arms(P, rep, "R05.13")
     rep.assumptions = ["operator arity as written in Vtl.g4", "UNION ALL matches columns by position (SQL)"]
 
 
@@ -499,3 +503,42 @@ def _union_as_operand(P: Program, rep: Report, rule: str) -> None:
                                        f"is lost before the clause that uses it"))
                     break
     rep.floor(f"{rule} union-as-operand shapes", n, 4)
+
+
+def _symdiff_arms(P: Program, rep: Report, rule: str) -> None:
+    """_visit_set_operation evaluated for symdiff(D1, D2) where D2 declares the same components in another order: the two arms of the UNION ALL
+    (matched by POSITION) must list the same component names in the same sequence, or say BY NAME."""
+    import re as _re
+    from sa import structmodel as sm
+    from sa.e6 import Interp, Raised, Unmodelled
+    f = P.func(f"{sm.TRQ}._visit_set_operation")
+    M = sm.Model(P)
+    REG = registryx.extract(P)
+    d1 = M.ds("D1", ["A", "B"], ["M", "N"])
+    n = 0
+    for label, d2 in (("same-order", M.ds("D2", ["A", "B"], ["M", "N"])), ("measures-swapped", M.ds("D2", ["A", "B"], ["N", "M"])), ("identifiers-swapped", M.ds("D2", ["B", "A"], ["M", "N"]))):
+        node = sm.MNode("MulOp", op="symdiff", children=[sm.MNode("VarID", value="D1"), sm.MNode("VarID", value="D2")])
+        ext = {"self.visit": lambda c: f'SELECT * FROM "{c.value}"', "self._get_dataset_structure": lambda c, d2=d2: d1 if getattr(c, "value", None) == "D1" else d2,
+               "self._get_output_dataset": lambda: d1, "quote_name": lambda x: f'"{x}"', "registry.sql": lambda o, *a: registryx.registry_sql(REG, o, *a),
+               "hasattr": lambda o, x: hasattr(o, x), "self._join_on_clause": lambda ids, a, b: " AND ".join(f'{a}."{i}" = {b}."{i}"' for i in ids),
+               # the CTE builder only wraps the final SELECT in WITH ...: modelled as the identity on the final SELECT
+               "CTEBuilder": lambda: "CTEBuilder()", "cte.cte": lambda *a, **k: None, "cte.select": lambda q: q}
+        try:
+            txt = " ".join(str(Interp(P, externals=ext).call(f, {"self": sm.MTranspiler(), "node": node, "op": "symdiff"})).split())
+        except (Unmodelled, Raised) as e:
+            raise AnalysisError(f"{rule}: _visit_set_operation(symdiff) outside the evaluator's language: {e}")
+        n += 1
+        by_name = bool(_re.search(r"UNION\s+(ALL\s+)?BY\s+NAME", txt, _re.I))
+        arms = [_re.findall(r'"([^"]+)"', a) for a in _re.findall(r'SELECT ((?:\w+\."[^"]+"(?:, )?)+) FROM', txt)]
+        rep.instance(rule, f"symdiff-arms/{label}", nontrivial=True, sample={"arms": arms, "by_name": by_name})
+        if by_name:
+            continue
+        if len(arms) < 2:
+            raise AnalysisError(f"{rule}: the symdiff SQL no longer has two explicit projections joined by UNION ALL (form not recognised): {txt[:200]}")
+        if any(a != arms[0] for a in arms[1:]):
+            rep.add(transp.fnd(rule, f"symdiff-arms/{label}", f, f.node.lineno,
+                               f"symdiff(D1, D2), D2 declaring its components as {list(d2.components)}: the UNION ALL arms select {arms} - UNION ALL matches by position, so the "
+                               f"datapoints that come from the second operand get their values under the wrong component names"))
+        elif set(arms[0]) != set(d1.components):
+            rep.add(transp.fnd(rule, f"symdiff-arms/{label}", f, f.node.lineno, f"symdiff(D1, D2): the arms select {arms[0]}, the operands have {sorted(d1.components)}"))
+    rep.floor(f"{rule} symdiff shapes", n, 3)
